@@ -111,12 +111,13 @@ def main():
 
         # ---- boundary sweep and random-draw domains
         items, metas = [], []
-        for D in (2, 3, 5, 8):
+        for D in (1, 2, 3, 5, 8):
             for ns in (D - 1, D, D + 1, 3 * D):
                 if ns < 1:
                     continue
                 for ens in (True, False):
-                    for kind in ('default', 'card', 'list', 'random', 'mixed'):
+                    # D = 1: a one-element value list (a constant feature) is still a value LIST, not a cardinality
+                    for kind in (('default', 'card', 'list', 'random', 'mixed') if D > 1 else ('list',)):
                         sd = rng.randrange(10 ** 6)
                         if kind == 'default':
                             kw = {'n_features': 2, 'n_samples': ns, 'cardinality': D, 'ensure_rep': ens, 'seed': sd}
